@@ -2729,3 +2729,104 @@ impl ChangeMarker for AnnotationStore {
         &self.changed
     }
 }
+
+#[cfg(feature = "verif-dump")]
+fn verif_dump_selector(selector: &Selector) -> serde_json::Value {
+    match selector {
+        Selector::TextSelector(r, t, m) => {
+            serde_json::json!({"k": "Text", "r": r.as_usize(), "t": t.as_usize(), "m": format!("{:?}", m)})
+        }
+        Selector::AnnotationSelector(a, Some((r, t, m))) => {
+            serde_json::json!({"k": "Annotation", "a": a.as_usize(), "r": r.as_usize(), "t": t.as_usize(), "m": format!("{:?}", m)})
+        }
+        Selector::AnnotationSelector(a, None) => {
+            serde_json::json!({"k": "Annotation", "a": a.as_usize()})
+        }
+        Selector::ResourceSelector(r) => serde_json::json!({"k": "Resource", "r": r.as_usize()}),
+        Selector::DataSetSelector(s) => serde_json::json!({"k": "DataSet", "s": s.as_usize()}),
+        Selector::DataKeySelector(s, k) => {
+            serde_json::json!({"k": "DataKey", "s": s.as_usize(), "key": k.as_usize()})
+        }
+        Selector::AnnotationDataSelector(s, d) => {
+            serde_json::json!({"k": "AnnotationData", "s": s.as_usize(), "d": d.as_usize()})
+        }
+        Selector::MultiSelector(v) => {
+            serde_json::json!({"k": "Multi", "sub": v.iter().map(verif_dump_selector).collect::<Vec<_>>()})
+        }
+        Selector::CompositeSelector(v) => {
+            serde_json::json!({"k": "Composite", "sub": v.iter().map(verif_dump_selector).collect::<Vec<_>>()})
+        }
+        Selector::DirectionalSelector(v) => {
+            serde_json::json!({"k": "Directional", "sub": v.iter().map(verif_dump_selector).collect::<Vec<_>>()})
+        }
+        Selector::RangedTextSelector {
+            resource,
+            begin,
+            end,
+        } => {
+            serde_json::json!({"k": "RangedText", "r": resource.as_usize(), "begin": begin.as_usize(), "end": end.as_usize()})
+        }
+        Selector::RangedAnnotationSelector {
+            begin,
+            end,
+            with_text,
+        } => {
+            serde_json::json!({"k": "RangedAnnotation", "begin": begin.as_usize(), "end": end.as_usize(), "with_text": with_text})
+        }
+    }
+}
+
+#[cfg(feature = "verif-dump")]
+impl AnnotationStore {
+    /// Read-only dump of all stores, id maps and reverse indices in their stored order (verification hook).
+    pub fn verif_dump(&self) -> serde_json::Value {
+        serde_json::json!({
+            "id": self.id,
+            "changed": self.changed.read().map(|x| *x).ok(),
+            "serialize_mode": format!("{:?}", self.config.serialize_mode.read().map(|x| *x).ok()),
+            "annotations": self.annotations.iter().map(|a| match a {
+                Some(a) => serde_json::json!({
+                    "handle": a.handle().map(|h| h.as_usize()),
+                    "id": a.id(),
+                    "data": a.raw_data().iter().map(|(s, d)| serde_json::json!([s.as_usize(), d.as_usize()])).collect::<Vec<_>>(),
+                    "target": verif_dump_selector(a.target()),
+                }),
+                None => serde_json::Value::Null,
+            }).collect::<Vec<_>>(),
+            "resources": self.resources.iter().map(|r| match r {
+                Some(r) => r.verif_dump(),
+                None => serde_json::Value::Null,
+            }).collect::<Vec<_>>(),
+            "datasets": self.annotationsets.iter().map(|s| match s {
+                Some(s) => s.verif_dump(),
+                None => serde_json::Value::Null,
+            }).collect::<Vec<_>>(),
+            "substores": self.substores.iter().map(|s| match s {
+                Some(s) => serde_json::json!({
+                    "id": s.id,
+                    "filename": s.filename,
+                    "parents": s.parents.iter().map(|p| p.map(|p| p.as_usize())).collect::<Vec<_>>(),
+                    "annotations": s.annotations.iter().map(|h| h.as_usize()).collect::<Vec<_>>(),
+                    "annotationsets": s.annotationsets.iter().map(|h| h.as_usize()).collect::<Vec<_>>(),
+                    "resources": s.resources.iter().map(|h| h.as_usize()).collect::<Vec<_>>(),
+                }),
+                None => serde_json::Value::Null,
+            }).collect::<Vec<_>>(),
+            "annotation_idmap": self.annotation_idmap.verif_dump(),
+            "resource_idmap": self.resource_idmap.verif_dump(),
+            "dataset_idmap": self.dataset_idmap.verif_dump(),
+            "substore_idmap": self.substore_idmap.verif_dump(),
+            "dataset_data_annotation_map": self.dataset_data_annotation_map.verif_dump(),
+            "textrelationmap": self.textrelationmap.verif_dump(),
+            "resource_annotation_metamap": self.resource_annotation_metamap.verif_dump(),
+            "dataset_annotation_metamap": self.dataset_annotation_metamap.verif_dump(),
+            "annotation_annotation_map": self.annotation_annotation_map.verif_dump(),
+            "key_annotation_map": self.key_annotation_map.verif_dump(),
+            "key_annotation_metamap": self.key_annotation_metamap.verif_dump(),
+            "data_annotation_metamap": self.data_annotation_metamap.verif_dump(),
+            "annotation_substore_map": self.annotation_substore_map.verif_dump(),
+            "resource_substore_map": self.resource_substore_map.verif_dump(),
+            "dataset_substore_map": self.dataset_substore_map.verif_dump(),
+        })
+    }
+}
